@@ -12,6 +12,10 @@ func AllRules() map[string]*Rule {
 		ruleLeaderEntry(),
 		ruleCountVotes(),
 		ruleLeaderID(),
+		ruleQuorumShape(),
+		ruleCommitLeader(),
+		ruleCommitFollower(),
+		ruleOwners(),
 	} {
 		m[r.ID] = r
 	}
